@@ -93,6 +93,10 @@ func main() {
 	fs.BoolVar(&MixedCaseMint, "mixed", false, "chain configuration with a mixed-case minting denom (uUSDC)")
 	fs.Parse(os.Args[2:])
 	tab := NewSymTab(seed, ModuleAddress, prefix)
+	if cmd == "genesis" {
+		// the documented default of an absent next-nonce is the CONCRETE value 0: abstract nonce 0 must be that value
+		tab.NonceBase = 0
+	}
 	var rd *os.File = os.Stdin
 	if *in != "-" {
 		f, err := os.Open(*in)
